@@ -31,6 +31,8 @@ const (
 	VerifSiteWcAfterLock
 	VerifSiteWcAfterUnlock
 	VerifSiteWcStoreState
+	VerifSiteMutexCountLoad
+	VerifSiteMutexStateLoad
 )
 
 // VerifYield is called before each shared-memory access of the instrumented functions.
